@@ -138,6 +138,7 @@ impl ConcProp {
       skipped: res.skipped.is_some(),
       case: serde_json::to_value(&out_case).unwrap(),
       outcome_hash: oh,
+      site_pairs: res.outcome.stats.site_pairs.clone(),
     }
   }
 
@@ -548,6 +549,7 @@ impl C19Prop {
       skipped: false,
       case: serde_json::to_value(case).unwrap(),
       outcome_hash: h,
+      site_pairs: Default::default(),
     }
   }
 }
